@@ -27,7 +27,7 @@ ASSUMPTIONS = [
     "mutations are carried out with valid membership proofs (as the property says) = the authentication path of the specification; with invalid proofs only model = implementation is checked",
     "history_commits, verify_batch_update_iff, rejects_dup_oob and bag_peaks_spec are proved in general (props/C11.v); the digest equality test deq is assumed to decide equality (derived PartialEq on Digest)",
 ]
-RULE = ("operation histories (append / mutate / batch-mutate / verify_batch_update with negative tweaks) of 1..300 (quick) or "
+RULE = ("SYNTHETIC accumulators MmrAccumulator::init(peaks, count) with hand-built valid proofs for bit-pattern counts up to 2^63-1 (2^k, 2^k-1, >= 33 trailing ones, count XOR index just below a power of two) through verify / append-update / mutate / batch-mutate / verify_batch_update; operation histories (append / mutate / batch-mutate / verify_batch_update with negative tweaks) of 1..300 (quick) or "
         "..3000 (thorough) operations with leaf counts steered through 2^k-1 -> 2^k; new_from_leafs for every count; "
         "small-scope exhaustive batch mutations; distinct = distinct case text")
 
@@ -52,7 +52,7 @@ def vbu_grid(rng, counts):
 
 def cases(tier, rng):
     big = tier == "thorough"
-    out = []
+    out = mc.syn_cases(rng, big, ("a", "m", "b", "w", "wx"))
     for n in range(0, 301 if big else 70):
         out.append(("new_from_leafs", "nfl %d" % n))
     for n in (511, 512, 513, 1023, 1024, 1025) + ((4095, 4096, 10000) if big else ()):
